@@ -63,6 +63,11 @@ func (g *Gen) literalFor(typ string) string {
 	}
 	switch kindOf(typ) {
 	case "int":
+		// Integers with leading zeros are decimal in SQLite (0644 is six hundred and forty-four).
+		if g.T.Chance("int-default-with-leading-zero", 1, 6) {
+			g.use("int-default-with-leading-zero")
+			return []string{"0644", "-010", "08", "007"}[g.T.Draw("leading-zero", 4)]
+		}
 		return fmt.Sprint(g.T.Draw("int-default", 100))
 	case "real":
 		// Also the spellings people use for the same numbers: a trailing zero, no leading zero, an exponent.
